@@ -4,7 +4,7 @@
 `y[x == c]` rely on `x == c` being evaluated element by element.  That is true for numpy arrays; for a Python list or tuple `x == c` is a
 single bool and the idiom silently selects nothing (or everything).  The rule reports the idiom when `x` is a bare parameter of the function
 that is documented or used as a general sequence - i.e. the function neither converts it (`np.array`, `np.asarray`, `np.asanyarray`,
-`np.atleast_1d`, `.astype`, `.copy()` of an array) nor receives it annotated as an ndarray - before the comparison."""
+`np.atleast_1d`, `.astype`, `.copy()` of an array) nor receives it annotated as an ndarray - before the comparison.  A parameter whose docstring entry names an array type only is taken at its word."""
 from __future__ import annotations
 
 import ast
@@ -60,6 +60,14 @@ def findings(tree: ast.AST):
                 continue
             if "ndarray" in ann.get(name, "") or "np.array" in ann.get(name, ""):
                 continue
+            # documented type: a parameter documented as an array only (no list / tuple / sequence) is taken at its word
+            doc = ast.get_docstring(fn) or ""
+            import re as _re
+            mdoc = _re.search(r"^\s*" + _re.escape(name) + r"\s*\(([^)]*)\)", doc, _re.M)
+            if mdoc:
+                t = mdoc.group(1).lower()
+                if ("array" in t or "ndarray" in t) and not any(w in t for w in ("list", "tuple", "sequence", "iterable")):
+                    continue
             if name in converted and converted[name] <= n.lineno:
                 continue
             out.append((fn, n, name))
